@@ -24,6 +24,7 @@ var MethodMap = map[string]Operation{
 	"/gripql.Query/ListGraphs":   Read,
 	"/gripql.Query/ListIndices":  Read,
 	"/gripql.Query/ListLabels":   Read,
+	"/gripql.Query/ListTables":   Read,
 
 	"/gripql.Job/Submit":     Exec,
 	"/gripql.Job/ListJobs":   Read,
@@ -41,12 +42,13 @@ var MethodMap = map[string]Operation{
 	"/gripql.Edit/DeleteVertex": Write,
 	"/gripql.Edit/DeleteEdge":   Write,
 	"/gripql.Edit/AddIndex":     Write,
+	"/gripql.Edit/DeleteIndex":  Write,
 	"/gripql.Edit/AddSchema":    Write,
 	"/gripql.Edit/AddMapping":   Write,
 	"/gripql.Edit/SampleSchema": Write, //Maybe exec?
 
 	"/gripql.Configure/StartPlugin": Admin,
-	"/gripql.Configure/ListPlugin":  Admin,
+	"/gripql.Configure/ListPlugins": Admin,
 	"/gripql.Configure/ListDrivers": Admin,
 }
 
